@@ -511,7 +511,7 @@ def cases(draw, root_pools=(4,), extra_roots=(0,), **kw):
             fn["int_axes"] = list(axes)
             fn["ret"] = ret
             fn["shape_via"] = "none"  # neither internal_shapes= nor PipeFunc(internal_shape=): there is no MapSpec
-    return {"prog": prog, "ints": ints, "load_intermediate": draw(st.sampled_from([True, True, False]))}
+    return {"prog": prog, "ints": ints, "load_intermediate": draw(st.booleans())}
 
 
 def reintroduced_index_chains():
@@ -554,6 +554,9 @@ def campaigns(tier):
                  describe="C01 programs (rank <= 2, no autogen): dataset both ways, dims/values/coordinates/selection"),  # fmt: skip
         Campaign("zip", body, cases(root_pools=(2, 4), extra_roots=(1, 2)), quick=500, thorough=12000,
                  describe="same plus 1-2 extra 1-D roots zipped into functions on an index they already name: zipped coordinates, zip x outer, zip with intermediates"),  # fmt: skip
+        Campaign("chains", body, cases(max_funcs=4, min_funcs=2, allow_no_mapspec=False, allow_reduction=False, allow_internal=False),
+                 quick=400, thorough=8000,
+                 describe="element-wise chains (every function mapped, no reduction): intermediate outputs become coordinates of downstream variables iff load_intermediate"),  # fmt: skip
         Campaign("reintroduced-index", body, enumerate=reintroduced_index_chains, quick=0, thorough=0, exhaustive=True,
                  describe="all 96 four-function chains in which an index is reduced away and introduced again by another root"),  # fmt: skip
     ]
